@@ -324,7 +324,7 @@ func VerifC07Field() {
 			doc.set(fjson, &c06V{cat: c06Arr, elems: []*c06V{one("f0")}})
 		case 3:
 			o := c06Object()
-			o.set(verif.StringIn("f.key", 2, "a-z"), one("f0"))
+			o.set(verif.StringIn("f.key", verif.L(2), "a-z"), one("f0"))
 			doc.set(fjson, o)
 		}
 	} else if nullable {
@@ -536,20 +536,20 @@ func VerifC07Unwrap() {
 		doc = c06Object()
 		v, nf := el.value(w, "e")
 		verif.Assume(!nf)
-		doc.set(verif.StringIn("key", 2, "a-z"), v)
+		doc.set(verif.StringIn("key", verif.L(2), "a-z"), v)
 	case 2:
 		o := &descriptorpb.FieldOptions{}
 		verif.SetExt(o, http.E_Unwrap, true)
 		mkMap(msg, "by_key", o, protoreflect.MessageKind, wrapper, false)
 		doc = c06Object()
-		doc.set(verif.StringIn("key", 2, "a-z"), elemArr("e"))
+		doc.set(verif.StringIn("key", verif.L(2), "a-z"), elemArr("e"))
 	case 3:
 		c06Add(msg, &verif.FieldDesc{FName: "id", FJSON: "id", FKind: protoreflect.StringKind})
 		mkMap(msg, "by_key", &descriptorpb.FieldOptions{}, protoreflect.MessageKind, wrapper, false)
 		doc = c06Object()
 		doc.set("id", &c06V{cat: c06Str})
 		m := c06Object()
-		m.set(verif.StringIn("key", 2, "a-z"), elemArr("e"))
+		m.set(verif.StringIn("key", verif.L(2), "a-z"), elemArr("e"))
 		doc.set("by_key", m)
 	}
 	decls := c07Emit(w, w.child, wrapper)
